@@ -10,5 +10,5 @@ else
   (cd $d/work && patch -p1 -s < "$1")
 fi
 tier=${TIER:-quick}
-cd /verif && VERIF_EVIDENCE_DIR=$d/ev VERIF_REPLAY_DIR=$d/rp CATTRS_SRC=$d/work/src ./check $prop $tier | grep -E "VIOLATION|^OK|KNOWN|INFRA|^  " | head -8
+cd /verif && VERIF_EVIDENCE_DIR=$d/ev VERIF_REPLAY_DIR=$d/rp CATTRS_SRC=$d/work/src ./check $prop $tier | grep -E "VIOLATION|^OK|INFRA|^  " | head -6
 rm -rf $d
